@@ -82,7 +82,11 @@ class Lock:
 class Rng:
     M = (1 << 64) - 1
     def __init__(self, seed):
-        self.s = (seed * 0x9E3779B97F4A7C15 + 0x1234567) & self.M
+        # the state is a hash of the seed (NOT seed*gamma: consecutive seeds would give shifted copies of one stream)
+        z = (seed + 0x632BE59BD9B4E019) & self.M
+        z = ((z ^ (z >> 30)) * 0xBF58476D1CE4E5B9) & self.M
+        z = ((z ^ (z >> 27)) * 0x94D049BB133111EB) & self.M
+        self.s = (z ^ (z >> 31)) & self.M
     def u64(self):
         self.s = (self.s + 0x9E3779B97F4A7C15) & self.M
         z = self.s
